@@ -188,7 +188,7 @@ def build(work, instances, need_run=True, jobs=run.NCPU):
             f.write("fn guarded(name: &str, f: fn(&str) -> String, input: String) -> String {\n"
                     "  let (tx, rx) = std::sync::mpsc::channel();\n"
                     "  std::thread::Builder::new().stack_size(1 << 30).spawn(move || { let _ = tx.send(f(&input)); }).unwrap();\n"
-                    "  match rx.recv_timeout(std::time::Duration::from_secs(8)) {\n"
+                    "  match rx.recv_timeout(std::time::Duration::from_secs(30)) {\n"
                     "    Ok(s) => s,\n"
                     "    Err(_) => { println!(\"@@R {} hang\", name); std::process::exit(7); }\n  }\n}\n")
             f.write("fn main() {\n  std::panic::set_hook(Box::new(|_| {}));\n"
